@@ -3,6 +3,7 @@ package main
 
 import (
 	"fmt"
+	"math/rand"
 	"strings"
 
 	"verif/ev"
@@ -34,6 +35,7 @@ func main() {
 	defer sn.CleanupScratch()
 	nh := r.N(200, 5000)
 	models := map[*hist.SUT]*irr{}
+	lastKind := map[*hist.SUT]string{}
 	hist.NonTrivial = func(s *hist.SUT) bool { return s.T.Opts.Cfg.Window > 0 && s.Stats["walk.across"] > 0 }
 	windows := []int{0, 1, 2, 3, 5}
 	for wi, w := range windows {
@@ -51,14 +53,51 @@ func main() {
 					m = &irr{w: win, chain: []int{0}}
 					models[s] = m
 				}
+				lastKind[s] = op.Kind
 				return audit(r, s, op, m)
-			}, nil)
+			}, func(s *hist.SUT, rng *rand.Rand) []hist.Problem {
+				// operations that FAIL part of the way: a junk peer block played or walked to (a walk
+				// over several blocks whose last one is refused stops at an intermediate block), a
+				// storage write error inside confirm / play / walk / own block. Whether they leave a
+				// trace is C05's question; here the irreversible height must still be the maximum over
+				// the blocks that were applied, in memory and after the next reopen.
+				var op hist.Op
+				pick := rng.Intn(12)
+				if lastKind[s] == "mine" && rng.Intn(2) == 0 {
+					pick = 2 // a write error right after the node applied a block of its own
+				}
+				switch pick {
+				case 0:
+					op, _ = s.FailPlay(rng)
+				case 1:
+					op, _ = s.FailWalk(rng)
+				case 2:
+					op, _ = s.FaultOp(rng)
+				default:
+					return nil
+				}
+				if op.Kind == "" {
+					return nil
+				}
+				m := models[s]
+				if m == nil {
+					m = &irr{w: win, chain: []int{0}}
+					models[s] = m
+				}
+				r.Count("failing-ops", 1)
+				op.Kind = "partial:" + op.Kind
+				return audit(r, s, op, m)
+			})
 		r.Seed -= int64(wi) * 1000
 		for k := range models {
 			delete(models, k)
 		}
+		for k := range lastKind {
+			delete(lastKind, k)
+		}
 	}
 	r.Floor("irr.compared", 2000)
+	r.Floor("failing-ops", 100)
 	r.Floor("irr.raised", 200)
 	r.Floor("walk.refused.justified", 30)
 	r.Floor("walk.prune.lowered", 5)
@@ -106,6 +145,8 @@ func audit(r *ev.Run, s *hist.SUT, op hist.Op, m *irr) []hist.Problem {
 			s.Stats["walk.across"]++
 		}
 		// (a successful walk that should have been refused is caught by the chain comparison above)
+	} else if strings.HasPrefix(op.Kind, "partial:") {
+		// built to fail (or to hit a write error): no verdict on the result itself
 	} else if failed && op.Kind != "submit" {
 		return []hist.Problem{{Sig: "legal-op-failed|" + op.Kind, Detail: "legal operation failed: " + op.String()}}
 	}
